@@ -1,8 +1,9 @@
 package main
 
 import (
-	"strings"
+	"strconv"
 	"fmt"
+	"strings"
 
 	"github.com/tidwall/geojson"
 	"github.com/tidwall/geojson/geometry"
@@ -122,7 +123,81 @@ func objectsOf(s *exact.Shape, t Xf, opts *geometry.IndexOptions) []geojson.Obje
 	default:
 		base = geojson.NewPolygon(geomOf(s, t, opts).(*geometry.Poly))
 	}
-	return []geojson.Object{base, geojson.NewFeature(base, ""), geojson.NewFeature(base, `{"id":1,"properties":{"a":[1,2]}}`)}
+	out := []geojson.Object{base, geojson.NewFeature(base, ""), geojson.NewFeature(base, `{"id":1,"properties":{"a":[1,2]}}`)}
+	// the same shape read from a document with third ordinates and "bbox"
+	// members of several kinds (a foreign member as far as geometry goes): the
+	// six-number 3D form, too small, elsewhere; on the geometry, on a Feature
+	// around it, and as an indexed child of a FeatureCollection
+	if coords, ok := coordsJSON(s, t); ok {
+		typ := map[exact.Kind]string{exact.KPoint: "Point", exact.KLine: "LineString", exact.KPoly: "Polygon"}[s.Kind]
+		rc := base.Rect()
+		f := func(v float64) string { return strconv.FormatFloat(v, 'g', -1, 64) }
+		boxes := []string{
+			"[" + f(rc.Min.X) + "," + f(rc.Min.Y) + ",2," + f(rc.Max.X) + "," + f(rc.Max.Y) + ",8]",
+			"[" + f(rc.Min.X) + "," + f(rc.Min.Y) + "," + f(rc.Min.X) + "," + f(rc.Min.Y) + "]",
+			"[100,100,101,101]",
+		}
+		for bi, b := range boxes {
+			g := `{"type":"` + typ + `","bbox":` + b + `,"coordinates":` + coords + `}`
+			docs := []string{g, `{"type":"Feature","bbox":` + b + `,"geometry":` + g + `,"properties":{}}`}
+			if bi == 0 {
+				docs = append(docs, `{"type":"FeatureCollection","bbox":`+b+`,"features":[{"type":"Feature","bbox":`+b+`,"geometry":`+g+`}]}`)
+			}
+			for _, d := range docs {
+				o, err := geojson.Parse(d, &geojson.ParseOptions{IndexChildren: 1, IndexGeometry: 64, IndexGeometryKind: geometry.QuadTree})
+				if err != nil {
+					panic("harness: " + err.Error() + ": " + d)
+				}
+				out = append(out, o)
+			}
+		}
+	}
+	return out
+}
+
+// coordsJSON writes the coordinates member of the shape with a third ordinate
+// on every position (ok=false where Parse would not take the shape: rings
+// that are not closed or too short, rectangles).
+func coordsJSON(s *exact.Shape, t Xf) (string, bool) {
+	pos := func(p exact.P, i int) string {
+		q := t.pt(p)
+		return "[" + strconv.FormatFloat(q.X, 'g', -1, 64) + "," + strconv.FormatFloat(q.Y, 'g', -1, 64) + "," + strconv.Itoa(2+i%7) + "]"
+	}
+	list := func(ps []exact.P) string {
+		var sb strings.Builder
+		sb.WriteByte('[')
+		for i, p := range ps {
+			if i > 0 {
+				sb.WriteByte(',')
+			}
+			sb.WriteString(pos(p, i))
+		}
+		sb.WriteByte(']')
+		return sb.String()
+	}
+	closedRing := func(r []exact.P) bool { return len(r) >= 4 && r[0] == r[len(r)-1] }
+	switch s.Kind {
+	case exact.KPoint:
+		return pos(s.Pt, 0), true
+	case exact.KLine:
+		if len(s.Line) < 2 {
+			return "", false
+		}
+		return list(s.Line), true
+	case exact.KPoly:
+		if !closedRing(s.Ext) {
+			return "", false
+		}
+		out := "[" + list(s.Ext)
+		for _, h := range s.Holes {
+			if !closedRing(h) {
+				return "", false
+			}
+			out += "," + list(h)
+		}
+		return out + "]", true
+	}
+	return "", false
 }
 
 func c01Object(s *exact.Shape, t Xf, probes []exact.P, fprobes []geometry.Point, cfg idxCfg, w *rt.Worker) {
